@@ -102,7 +102,11 @@ func init() {
 		"vNondetUint16": nd(types.Uint16),
 		"vNondetUint8":  nd(types.Uint8),
 		"vNondetBool": func(ex *Exec, fr *frame, a []value) value {
-			b := ex.nondet(a[0].(string), types.Uint8).(sv)
+			bv := ex.nondet(a[0].(string), types.Uint8)
+			b, ok := bv.(sv)
+			if !ok { // interpreted replay: concrete value
+				return bv.(uint8)&1 == 1
+			}
 			return fromTerm(ex.tt.Cmp(OpEq, ex.tt.Extract(b.t, 0, 0), ex.tt.Const(1, 1)), types.Bool)
 		},
 		"vNondetBytes": func(ex *Exec, fr *frame, a []value) value {
